@@ -182,7 +182,17 @@ impl Parser {
 
         match input.as_rule() {
             Rule::dot_function_call => {
-                let Some(function_type) = type_of_property.is_callable_allow_class(true) else {
+                // a class is called (constructed) under its own name through the module that exports it; any other
+                // member or field whose type is a class holds an INSTANCE of it, which is not callable
+                let names_a_class = match (lhs_ty, type_of_property.get_type_recursively()) {
+                    (TypeLayout::Module(..), TypeLayout::Class(class_type)) => {
+                        class_type.name() == ident_str
+                    }
+                    _ => false,
+                };
+
+                let Some(function_type) = type_of_property.is_callable_allow_class(names_a_class)
+                else {
                     return Err(vec![new_err(
                         ident_span,
                         &source_name,
